@@ -32,6 +32,69 @@ except Exception:  # noqa
 
 DIAG_FIELDS = set(DIAG_FIELDS)
 
+try:
+    from . import forms as _forms
+except Exception:  # noqa - forms.py is the lead's; without it every argument keeps its ordinary form
+    _forms = None
+
+import collections
+import random as _random
+
+LAYOUTS_1D = ["strided", "readonly", "negstride"]
+LAYOUTS_2D = ["fortran", "strided", "readonly", "negstride", "transposed-store"]
+MAP_FORMS = ["OrderedDict", "defaultdict-int", "defaultdict-const"]
+SEQ_FORMS = ["tuple", "tuple", "range", "ndarray"]
+
+
+class _Force:
+    """stand-in for the PRNG of harness/forms.py: always leaves the ordinary form, always picks `want`"""
+
+    def __init__(self, want):
+        self.want = want
+
+    def random(self):
+        return 0.0
+
+    def choice(self, seq):
+        seq = list(seq)
+        return self.want if self.want in seq else seq[0]
+
+
+def apply_layout(a, kind):
+    """same dtype, same values, the memory layout named by `kind` (harness/forms.layout)"""
+    if not kind or kind == "c-contiguous" or _forms is None or a.ndim == 0:
+        return a
+    if a.ndim < 2 and kind in ("fortran", "transposed-store"):
+        kind = "strided"
+    out, _ = _forms.layout(_Force(kind), a, p=1.0)
+    return out
+
+
+def apply_form(v, form):
+    """a decoded argument in the form recorded in the case (content unchanged)"""
+    if not form or _forms is None:
+        return v
+    if isinstance(v, dict):
+        out, _ = _forms.mapping(_Force(form), v, p=1.0)
+        return out
+    if isinstance(v, list):
+        out, _ = _forms.sequence(_Force(form), v, p=1.0)
+        return out
+    if isinstance(v, numpy.ndarray):
+        return apply_layout(v, form)
+    if isinstance(v, int) and not isinstance(v, bool) and form.startswith("numpy."):
+        return numpy.dtype(form[6:]).type(v)
+    return v
+
+
+def _pick_layout(frng, ndim, p=0.35):
+    if _forms is None or frng.random() >= p:
+        return None
+    return frng.choice(LAYOUTS_2D if ndim >= 2 else LAYOUTS_1D)
+
+
+_RO_EVENTS = []          # exceptions that say the library tried to write into a read-only argument
+
 NaN = float("nan")
 
 # --------------------------------------------------------------------------
@@ -292,7 +355,10 @@ def _call(fn, *args, **kw):
         with _Quiet():
             return ("ok", fn(*args, **kw))
     except Exception as e:  # noqa - the library may raise anything
-        return ("exc", "%s: %s" % (type(e).__name__, str(e)[:100]))
+        msg = "%s: %s" % (type(e).__name__, str(e)[:100])
+        if "read-only" in msg or "readonly" in msg or "not writeable" in msg:
+            _RO_EVENTS.append("%s raises %s" % (getattr(fn, "__qualname__", getattr(fn, "__name__", "call")), msg))
+        return ("exc", msg)
 
 
 def _finding(signature, what, case, **detail):
@@ -354,8 +420,13 @@ class _Pool:
         return name
 
 
-def _gen_var(rng, nrng, N, cols, pool, role, positive=False, float_only=False):
-    """Add one fact / weights variable to the pool; return its ref name."""
+MAGNITUDES = {"huge": 1e307, "tiny": 1e-300}
+
+
+def _gen_var(rng, nrng, N, cols, pool, role, positive=False, float_only=False, magnitude=None):
+    """Add one fact / weights variable to the pool; return its ref name.
+    magnitude: None, or True = draw the scale of the (float) values from MAGNITUDES (values, and the junk hidden
+    under a False validity, around 1e307 - forty of them sum to inf - or around 1e-300)."""
     shape = (N,) if cols is None else (N, cols)
     forms = ["nan", "nan", "tuple", "tuple", "tuple", "plainf"]
     if not float_only:
@@ -372,8 +443,13 @@ def _gen_var(rng, nrng, N, cols, pool, role, positive=False, float_only=False):
             lo = 0
     else:
         lo, hi = (-8, 24)
+    scale, scale_name = 1.0, None
+    if magnitude and form != "plaini":
+        floaty = True
+        scale_name = rng.choice(["huge", "huge", "tiny", None])
+        scale = MAGNITUDES.get(scale_name, 1.0)
     if floaty:
-        vals = _quarter_floats(nrng, shape, lo, hi)
+        vals = _quarter_floats(nrng, shape, lo, hi) * scale
     else:
         vals = nrng.integers(lo, hi + 1, size=shape).astype(numpy.int64)
     missing = numpy.zeros(shape, dtype=bool)
@@ -387,6 +463,8 @@ def _gen_var(rng, nrng, N, cols, pool, role, positive=False, float_only=False):
         vals = vals.copy()
         if missing.any():
             j = _junk(rng, nrng, shape, floaty)
+            if floaty and scale != 1.0:
+                j = numpy.abs(numpy.nan_to_num(numpy.asarray(j, dtype=float), nan=3.0)) % 7 * scale
             vals[missing] = j[missing].astype(vals.dtype) if not floaty else j[missing]
         v = pool.add_array(vals)
         m = pool.add_array(~missing, prefix="v")
@@ -400,6 +478,7 @@ def _gen_var(rng, nrng, N, cols, pool, role, positive=False, float_only=False):
         "form": form,
         "positive": positive,
         "role": role,
+        "scale": scale_name,
     }
     return ref
 
@@ -445,8 +524,10 @@ def _gen_dims(rng, nrng, N, kind, ndims):
     return dims
 
 
-def _gen_one_cube_case(rng, nrng, kind, cid):
-    if kind == "ccube":
+def _gen_one_cube_case(rng, nrng, kind, cid, magnitude=False, frng=None):
+    if magnitude:
+        N = rng.choice([40, 48, 64, 80])
+    elif kind == "ccube":
         N = rng.choice([0, 1, 2, 3, 5, 8, 8, 12, 12, 20, 30, 40])
     else:
         N = rng.choice([1, 2, 3, 5, 8, 8, 12, 12, 20, 30, 40])
@@ -455,6 +536,8 @@ def _gen_one_cube_case(rng, nrng, kind, cid):
     dimsB = _gen_dims(rng, nrng, N, kind, rng.choice([1, 1, 2]) if ndims else rng.choice([0, 1]))
     pool = _Pool()
     classes = CC_CLASSES if kind == "ccube" else CC_CLASSES + XC_ONLY + XC_ONLY[:2]
+    if magnitude:       # the weighted statistics are where magnitudes matter
+        classes = classes + (["mean", "sum", "count"] if kind == "ccube" else ["quantile", "quantile", "stddev", "mean", "covariance", "count"])
     aggs = []
     nagg = rng.choice([1, 2, 2, 3, 3, 4])
     for j in range(nagg):
@@ -484,9 +567,9 @@ def _gen_one_cube_case(rng, nrng, kind, cid):
             if prev and rng.random() < 0.35:
                 spec["fact"] = rng.choice(prev)
             else:
-                spec["fact"] = _gen_var(rng, nrng, N, cols, pool, "fact")
+                spec["fact"] = _gen_var(rng, nrng, N, cols, pool, "fact", magnitude=magnitude)
         # ---- weights
-        if cls not in ("max", "min") and rng.random() < (0.7 if cls == "count" else 0.55):
+        if cls not in ("max", "min") and rng.random() < (0.9 if magnitude else 0.7 if cls == "count" else 0.55):
             float_only = cls == "covariance"
             prev = [a["weights"] for a in aggs if a["weights"] is not None]
             if rng.random() < 0.5:
@@ -502,7 +585,7 @@ def _gen_one_cube_case(rng, nrng, kind, cid):
             else:
                 spec["weights"] = _gen_var(
                     rng, nrng, N, None, pool, "weights",
-                    positive=(float_only or rng.random() < 0.97), float_only=float_only,
+                    positive=(float_only or rng.random() < 0.97), float_only=float_only, magnitude=magnitude,
                 )
         if cls == "count":
             spec["N"] = None
@@ -523,7 +606,29 @@ def _gen_one_cube_case(rng, nrng, kind, cid):
         perm = perm[1:] + perm[:1]
     nshort = min(nagg, rng.choice([1, 1, 2]))
     shortcuts = sorted(rng.sample(range(nagg), nshort))
+    # FORM of every argument (content unchanged): memory layout / read-only flag of the fact, weights and validity
+    # arrays and of the dimension arrays, integer dtype of the dimension arrays, NumPy-scalar N, tuple of aggregates
+    forms = {"arrays": {}, "dims": [], "dimsB": [], "N": {}, "aggs_seq": "list"}
+    if frng is not None and _forms is not None:
+        for name in sorted(pool.arrays):
+            lk = _pick_layout(frng, len(pool.arrays[name]["shape"]))
+            if lk:
+                forms["arrays"][name] = lk
+        for key, ds in (("dims", dims), ("dimsB", dimsB)):
+            for d in ds:
+                a = dec_arr(d["arr"])
+                f = {"layout": _pick_layout(frng, a.ndim), "dtype": None}
+                if a.size and frng.random() < 0.3:
+                    f["dtype"] = frng.choice(_forms.int_dtypes_holding(a.flatten().tolist()))
+                forms[key].append(f)
+        for j, spec in enumerate(aggs):
+            if spec.get("N") is not None and frng.random() < 0.4:
+                forms["N"][str(j)] = "numpy." + frng.choice(_forms.int_dtypes_holding([spec["N"]]))
+        if frng.random() < 0.3:
+            forms["aggs_seq"] = "tuple"
     return {
+        "forms": forms,
+        "magnitude": bool(magnitude),
         "kind": kind,
         "id": cid,
         "N": N,
@@ -541,10 +646,12 @@ def gen_cube_cases(rng, tier="quick"):
     """JSON-serialisable cube cases (quick ~200, thorough ~1500)."""
     n = 200 if tier == "quick" else 1500
     nrng = _nprng(rng)
+    frng = _random.Random(rng.getrandbits(32))      # the stream that picks argument forms
     cases = []
     for i in range(n):
         kind = "ccube" if i % 2 == 0 else "xcube"
-        cases.append(_gen_one_cube_case(rng, nrng, kind, i))
+        # every fifth case belongs to the magnitude stream (40-80 rows of ~1e307 / ~1e-300)
+        cases.append(_gen_one_cube_case(rng, nrng, kind, i, magnitude=(i % 5 == 4), frng=frng))
     return cases
 
 
@@ -571,6 +678,7 @@ class BuiltCube:
         self.agg_args = []  # per aggregate: (args tuple, shortcut name)
         self.cube_cls = None
         self.agg_classes = []
+        self.aggs_seq = list
 
     def args_struct(self):
         """Everything the caller owns and hands to the library."""
@@ -583,10 +691,15 @@ class BuiltCube:
         }
 
 
-def _build_dims(catii, kind, dims):
+def _build_dims(catii, kind, dims, forms=None):
     out = []
-    for d in dims:
+    for i, d in enumerate(dims):
         a = dec_arr(d["arr"])
+        f = forms[i] if forms and i < len(forms) else None
+        if f:
+            if f.get("dtype"):
+                a = a.astype(f["dtype"])
+            a = apply_layout(a, f.get("layout"))
         if kind == "ccube":
             if d.get("common") is None:
                 out.append(catii.iindex.from_array(a))
@@ -611,11 +724,12 @@ def build_cube_case(catii, case):
     """Materialise NumPy / iindex objects; shared refs become shared objects."""
     b = BuiltCube()
     kind = case["kind"]
-    b.arrays = {k: dec_arr(v) for k, v in case["arrays"].items()}
+    fm = case.get("forms") or {}
+    b.arrays = {k: apply_layout(dec_arr(v), fm.get("arrays", {}).get(k)) for k, v in case["arrays"].items()}
     b.tuples = {k: (b.arrays[v], b.arrays[m]) for k, (v, m) in case["tuples"].items()}
     with _Quiet():
-        b.dims = _build_dims(catii, kind, case["dims"])
-        b.dimsB = _build_dims(catii, kind, case["dimsB"])
+        b.dims = _build_dims(catii, kind, case["dims"], fm.get("dims"))
+        b.dimsB = _build_dims(catii, kind, case["dimsB"], fm.get("dimsB"))
     b.cube_cls = catii.ccube if kind == "ccube" else catii.xcube
 
     def ref(r):
@@ -623,12 +737,13 @@ def build_cube_case(catii, case):
             return None
         return b.tuples[r] if r in b.tuples else b.arrays[r]
 
-    for spec in case["aggs"]:
+    b.aggs_seq = tuple if fm.get("aggs_seq") == "tuple" else list
+    for j, spec in enumerate(case["aggs"]):
         cls = spec["cls"]
         rma = _RMA[spec["rma"]]
         im = bool(spec["ignore_missing"])
         if cls == "count":
-            args = (ref(spec["weights"]), spec.get("N"), im, rma)
+            args = (ref(spec["weights"]), apply_form(spec.get("N"), fm.get("N", {}).get(str(j))), im, rma)
         elif cls == "quantile":
             args = (ref(spec["fact"]), spec["probability"], ref(spec["weights"]), im, rma)
         elif cls in ("max", "min"):
@@ -697,13 +812,20 @@ def run_cube_case(catii, case):
         "kind": kind,
         "shared_refs": _shared_refs(case),
         "steps": [],
+        "forms": _cube_form_tags(case),
     }
+    del _RO_EVENTS[:]
 
     def add(sig, what, **detail):
         findings.append(_finding(sig, what, case, **detail))
 
     def done():
         stats["args_compared"] = watch.compared
+        if _RO_EVENTS:
+            # an argument handed over read-only: the library tried to write into it
+            add("arg-mutated:read-only-argument", "write into a read-only argument: %s" % "; ".join(_RO_EVENTS[:2]))
+            stats["rejected"] = 0
+            del _RO_EVENTS[:]
         return {"findings": findings, "stats": stats}
 
     b = build_cube_case(catii, case)
@@ -753,6 +875,7 @@ def run_cube_case(catii, case):
     stats["steps"].append("a")
     for j, a in enumerate(aggs):
         watch.add("aggs[%d]" % j, a)
+    aggs = b.aggs_seq(aggs)          # the sequence handed to calculate: list or tuple (form)
     watch.add("aggs-list", aggs)
 
     # ---- b. cube constructor
@@ -848,7 +971,7 @@ def run_cube_case(catii, case):
 
     # ---- f. permutation
     perm = case.get("perm") or list(range(len(aggs)))
-    st, r_p = _call(cube.calculate, [aggs[j] for j in perm])
+    st, r_p = _call(cube.calculate, b.aggs_seq(aggs[j] for j in perm))
     stats["calls"] += 1
     ch = watch.check()
     if ch:
@@ -929,6 +1052,32 @@ def run_cube_case(catii, case):
                 add("result-aliases-arg:%s.%s" % (kind, cls), "%s.%s(...) result shares memory with an argument" % (kind, cls), agg=j)
     stats["steps"].append("h")
     return done()
+
+
+def _cube_form_tags(case):
+    fm = case.get("forms") or {}
+    tags = ["array:" + v for v in fm.get("arrays", {}).values()]
+    for key in ("dims", "dimsB"):
+        for f in fm.get(key, []):
+            if f.get("layout"):
+                tags.append("dim:" + f["layout"])
+            if f.get("dtype"):
+                tags.append("dim-dtype:" + f["dtype"])
+    tags += ["N:" + v for v in fm.get("N", {}).values()]
+    if fm.get("aggs_seq") == "tuple":
+        tags.append("aggs:tuple")
+    if case.get("magnitude"):
+        scales = set()
+        for a in case["arrays"].values():
+            x = dec_arr(a)
+            if x.dtype.kind == "f" and x.size:
+                m = numpy.nanmax(numpy.abs(numpy.where(numpy.isfinite(x), x, 0)))
+                if m > 1e300:
+                    scales.add("magnitude:huge")
+                elif 0 < m < 1e-290:
+                    scales.add("magnitude:tiny")
+        tags += sorted(scales) or ["magnitude:ordinary"]
+    return tags
 
 
 def _array_roles(case):
@@ -1078,13 +1227,13 @@ def _build_index_obj(catii, e):
 def _decode(catii, e, idx):
     t = e["t"]
     if t == "py":
-        return e["v"]
+        return apply_form(e["v"], e.get("form"))
     if t == "arr":
-        return dec_arr(e)
+        return apply_form(dec_arr(e), e.get("form"))
     if t == "map":
-        return {_key(k): v for k, v in e["items"]}
+        return apply_form({_key(k): v for k, v in e["items"]}, e.get("form"))
     if t == "list":
-        return [_decode(catii, x, idx) for x in e["v"]]
+        return apply_form([_decode(catii, x, idx) for x in e["v"]], e.get("form"))
     if t == "tuple":
         return tuple(_decode(catii, x, idx) for x in e["v"])
     if t == "self":
@@ -1414,10 +1563,41 @@ def _gen_call(rng, nrng, method, N, tail, domain):
     return call
 
 
+def _assign_forms(frng, e, tags, top=True):
+    """choose the FORM of an encoded argument (content unchanged): mapping class, sequence class, array layout,
+    NumPy-scalar ints"""
+    if _forms is None or not isinstance(e, dict):
+        return
+    t = e.get("t")
+    if t == "map" and frng.random() < 0.45:
+        e["form"] = frng.choice(MAP_FORMS)
+        tags.append("mapping:" + e["form"])
+    elif t == "list":
+        ints = all(x.get("t") == "py" and isinstance(x.get("v"), int) and not isinstance(x.get("v"), bool) for x in e["v"])
+        if frng.random() < 0.4:
+            e["form"] = frng.choice(SEQ_FORMS) if (ints and e["v"]) else "tuple"
+            tags.append("sequence:" + e["form"])
+        if not ints:
+            for x in e["v"]:
+                _assign_forms(frng, x, tags, top=False)
+    elif t == "tuple":
+        for x in e["v"]:
+            _assign_forms(frng, x, tags, top=False)
+    elif t == "arr":
+        lk = _pick_layout(frng, len(e["shape"]), p=0.4)
+        if lk:
+            e["form"] = lk
+            tags.append("array:" + lk)
+    elif t == "py" and top and isinstance(e.get("v"), int) and not isinstance(e.get("v"), bool) and frng.random() < 0.3:
+        e["form"] = "numpy." + frng.choice(_forms.int_dtypes_holding([e["v"]]))
+        tags.append("scalar:" + e["form"])
+
+
 def gen_index_cases(rng, tier="quick"):
     """One non-mutating method call per case (quick ~300, thorough ~3000)."""
     n = 300 if tier == "quick" else 3000
     nrng = _nprng(rng)
+    frng = _random.Random(rng.getrandbits(32))
     names = [m for m, _ in _METHOD_WEIGHTS]
     weights = [w for _, w in _METHOD_WEIGHTS]
     cases = []
@@ -1445,7 +1625,14 @@ def gen_index_cases(rng, tier="quick"):
         if not is3d:
             hist, N = _gen_history(rng, nrng, N, tail, domain)
         call = _gen_call(rng, nrng, method, N, tail, domain)
-        cases.append({"kind": "index", "id": i, "base": base, "history": hist, "call": call})
+        tags = []
+        for key in ("args", "args2"):
+            for e in call.get(key, []):
+                _assign_forms(frng, e, tags)
+        for key in ("kwargs", "kwargs2"):
+            for e in call.get(key, {}).values():
+                _assign_forms(frng, e, tags)
+        cases.append({"kind": "index", "id": i, "base": base, "history": hist, "call": call, "forms": tags})
     return cases
 
 
@@ -1506,7 +1693,9 @@ def run_index_case(catii, case):
     call = case["call"]
     m = call["method"]
     label = "column_stack" if m == "column_stack" else "iindex.%s" % m
-    stats = {"calls": 0, "args_compared": 0, "rejected": 0, "method": m, "poked": 0, "classes": [m], "has_missing": False, "kind": "index"}
+    stats = {"calls": 0, "args_compared": 0, "rejected": 0, "method": m, "poked": 0, "classes": [m], "has_missing": False, "kind": "index",
+             "forms": list(case.get("forms", []))}
+    del _RO_EVENTS[:]
 
     def add(kindsig, what, **detail):
         findings.append(_finding("%s:%s" % (kindsig, label), what, case, **detail))
@@ -1524,6 +1713,10 @@ def run_index_case(catii, case):
 
     def done():
         stats["args_compared"] = watch.compared
+        if _RO_EVENTS:
+            add("arg-mutated", "write into a read-only argument: %s: %s" % (_call_text(call), _RO_EVENTS[0]))
+            stats["rejected"] = 0
+            del _RO_EVENTS[:]
         return {"findings": findings, "stats": stats}
 
     st, r1 = _call(_do_index_call, catii, call, idx, b.args, b.kwargs)
@@ -1819,6 +2012,10 @@ def _drop_agg(case, j):
                     used.update(c["tuples"][r])
     c["tuples"] = {k: v for k, v in c["tuples"].items() if k in used}
     c["arrays"] = {k: v for k, v in c["arrays"].items() if k in used}
+    fm = c.get("forms")
+    if fm:
+        fm["arrays"] = {k: v for k, v in fm.get("arrays", {}).items() if k in used}
+        fm["N"] = {str(int(k) - (int(k) > j)): v for k, v in fm.get("N", {}).items() if int(k) != j}
     return c
 
 
@@ -1870,6 +2067,8 @@ def shrink_cube_case(catii, case, signature, budget=5.0):
                     continue
                 c = _copy_case(cur)
                 del c[key][i]
+                if c.get("forms") and i < len(c["forms"].get(key, [])):
+                    del c["forms"][key][i]
                 if fails(c):
                     cur, progress = c, True
         n = cur["N"]
@@ -1893,7 +2092,7 @@ def shrink_cube_case(catii, case, signature, budget=5.0):
 def run_cases(catii, cases, tracer=None):
     """Run cube and index cases; merged findings and summed statistics."""
     findings = []
-    tot = {"cases": 0, "calls": 0, "args_compared": 0, "rejected": 0, "with_missing": 0, "poked": 0, "by_class": {}, "reject_reasons": {}}
+    tot = {"cases": 0, "calls": 0, "args_compared": 0, "rejected": 0, "with_missing": 0, "poked": 0, "by_class": {}, "reject_reasons": {}, "forms": {}}
     for case in cases:
         r = replay_case(catii, case)
         s = r["stats"]
@@ -1903,6 +2102,8 @@ def run_cases(catii, cases, tracer=None):
         tot["with_missing"] += bool(s.get("has_missing"))
         for c in s.get("classes", []):
             tot["by_class"][c] = tot["by_class"].get(c, 0) + 1
+        for f in s.get("forms", []):
+            tot["forms"][f] = tot["forms"].get(f, 0) + 1
         if s.get("rejected"):
             rr = s.get("reject_reason", "?")[:80]
             tot["reject_reasons"][rr] = tot["reject_reasons"].get(rr, 0) + 1
